@@ -91,6 +91,8 @@ package checker
 //@ func checker.visitor.FunctionNode returns t
 //@   property C03 C04 C15
 //@   schema store-guard Fast kind(rest) == 23 && kind(elemtype(rest)) == 20
+// marking a call fast does not exempt its arguments from being checked: checkFunc (which visits them) still runs
+//@   schema then-calls Fast checkFunc
 //@   mode nopanic
 //@   assigns *
 //@   requires v != nil && node != nil
